@@ -477,7 +477,7 @@ def simplify_trace(trace: dict):
 TIERS = {
     "C14": {
         "quick": {"runs": 12000, "selftest": 16, "chunk": 200, "wall_cap": 900, "run_timeout": 120},
-        "thorough": {"runs": 400000, "selftest": 64, "chunk": 1000, "wall_cap": 3300, "run_timeout": 120,
+        "thorough": {"runs": 300000, "selftest": 64, "chunk": 1000, "wall_cap": 3300, "run_timeout": 120,
                      "expect_probes": ["schedule_permutation", "turnrate_scale", "inplace_transform_after_step",
                                        "step_during_construction", "failed_call_then_retry", "failed_call_not_retried",
                                        "elements_shared_by_two_networks", "rename:fresh", "rename:dup", "rename:permute",
